@@ -18,7 +18,11 @@ use scylla::policies::retry::{
     DefaultRetryPolicy, DowngradingConsistencyRetryPolicy, FallthroughRetryPolicy, RetryDecision,
     RetryPolicy, RetrySession,
 };
+use scylla::client::verif_execution as vx;
+use scylla::errors::RequestError;
+use scylla::policies::retry::RequestInfo;
 use scylla::statement::Consistency;
+use std::sync::{Arc, Mutex};
 use vh::*;
 
 const CLS: [(&str, Consistency); 11] = [
@@ -156,6 +160,170 @@ fn new_session(p: &str) -> Box<dyn RetrySession> {
     }
 }
 
+// ---------------------------------------------------------------- the real execution loop
+/// class (variant name) of a real error value, as the driver prints it for the model's errors
+fn err_class(e: &RequestAttemptError) -> &'static str {
+    match e {
+        RequestAttemptError::SerializationError(_) => "E.SerializationError",
+        RequestAttemptError::CqlRequestSerialization(_) => "E.CqlRequestSerialization",
+        RequestAttemptError::UnableToAllocStreamId => "E.UnableToAllocStreamId",
+        RequestAttemptError::BrokenConnectionError(_) => "E.BrokenConnectionError",
+        RequestAttemptError::BodyExtensionsParseError(_) => "E.BodyExtensionsParseError",
+        RequestAttemptError::CqlResultParseError(_) => "E.CqlResultParseError",
+        RequestAttemptError::CqlErrorParseError(_) => "E.CqlErrorParseError",
+        RequestAttemptError::UnexpectedResponse(_) => "E.UnexpectedResponse",
+        RequestAttemptError::RepreparedIdChanged { .. } => "E.RepreparedIdChanged",
+        RequestAttemptError::RepreparedIdMissingInBatch => "E.RepreparedIdMissingInBatch",
+        RequestAttemptError::NonfinishedPagingState => "E.NonfinishedPagingState",
+        RequestAttemptError::DbError(db, _) => match db {
+            DbError::SyntaxError => "Db.SyntaxError",
+            DbError::Invalid => "Db.Invalid",
+            DbError::AlreadyExists { .. } => "Db.AlreadyExists",
+            DbError::FunctionFailure { .. } => "Db.FunctionFailure",
+            DbError::AuthenticationError => "Db.AuthenticationError",
+            DbError::Unauthorized => "Db.Unauthorized",
+            DbError::ConfigError => "Db.ConfigError",
+            DbError::Unavailable { .. } => "Db.Unavailable",
+            DbError::Overloaded => "Db.Overloaded",
+            DbError::IsBootstrapping => "Db.IsBootstrapping",
+            DbError::TruncateError => "Db.TruncateError",
+            DbError::ReadTimeout { .. } => "Db.ReadTimeout",
+            DbError::WriteTimeout { .. } => "Db.WriteTimeout",
+            DbError::ReadFailure { .. } => "Db.ReadFailure",
+            DbError::WriteFailure { .. } => "Db.WriteFailure",
+            DbError::Unprepared { .. } => "Db.Unprepared",
+            DbError::ServerError => "Db.ServerError",
+            DbError::ProtocolError => "Db.ProtocolError",
+            DbError::RateLimitReached { .. } => "Db.RateLimitReached",
+            DbError::Other(_) => "Db.Other",
+            _ => "Db.?",
+        },
+        _ => "E.?",
+    }
+}
+
+/// (error class, idempotent, consistency) the loop put into RequestInfo, and the decision
+type DecisionLog = Arc<Mutex<Vec<(&'static str, bool, Consistency, RetryDecision)>>>;
+
+/// The real policy, with every decision of its sessions recorded.
+#[derive(Debug)]
+struct Recording {
+    policy: &'static str,
+    log: DecisionLog,
+    sessions: Arc<Mutex<u32>>,
+}
+struct RecordingSession {
+    inner: Box<dyn RetrySession>,
+    log: DecisionLog,
+}
+impl RetryPolicy for Recording {
+    fn new_session(&self) -> Box<dyn RetrySession> {
+        *self.sessions.lock().unwrap() += 1;
+        Box::new(RecordingSession { inner: new_session(self.policy), log: self.log.clone() })
+    }
+}
+impl RetrySession for RecordingSession {
+    fn decide_should_retry(&mut self, ri: RequestInfo) -> RetryDecision {
+        let (class, idem, cl) = (err_class(ri.error), ri.is_idempotent, ri.consistency);
+        let d = self.inner.decide_should_retry(ri);
+        self.log.lock().unwrap().push((class, idem, cl, d.clone()));
+        d
+    }
+    fn reset(&mut self) {
+        self.inner.reset()
+    }
+}
+
+struct LoopEnv {
+    rt: tokio::runtime::Runtime,
+    conn: vx::IdleConnection,
+}
+fn loop_env() -> LoopEnv {
+    // a listener that accepts and keeps the sockets open without ever writing
+    let listener = std::net::TcpListener::bind("127.0.0.1:0").expect("bind loopback");
+    let addr = listener.local_addr().unwrap();
+    std::thread::spawn(move || {
+        let mut keep = Vec::new();
+        for s in listener.incoming() {
+            if let Ok(s) = s {
+                keep.push(s);
+            }
+        }
+    });
+    let rt = tokio::runtime::Builder::new_current_thread().enable_all().build().unwrap();
+    let conn = rt.block_on(vx::idle_connection(addr)).expect("idle connection");
+    LoopEnv { rt, conn }
+}
+
+/// `F <policy> <idem> <cl0> <plan length> <outcome>...` ; outcome = `C` (get_connection fails) |
+/// `K` (attempt succeeds) | `X/<error>` (attempt fails).  Runs the REAL
+/// run_request_no_side_effects / run_request_speculative_fiber through the verif hook.
+/// output: `c<t>` | `a<t>/<cl>/ok` | `a<t>/<cl>/<error class>/<decision>` ... `=>` result
+fn run_fiber_case(env: &LoopEnv, case: &str) -> String {
+    let f: Vec<&str> = case.split_whitespace().collect();
+    let policy: &'static str = POLICIES.iter().find(|p| **p == f[1]).expect("bad policy");
+    let idem = f[2] == "1";
+    let cl0 = cl_of(f[3]);
+    let nplan: usize = f[4].parse().unwrap();
+    let outcomes: Vec<vx::Outcome> = f[5..]
+        .iter()
+        .map(|o| match *o {
+            "C" => vx::Outcome::ConnFail,
+            "K" => vx::Outcome::Success,
+            x => vx::Outcome::Error(parse_err(x.strip_prefix("X/").expect("bad outcome"))),
+        })
+        .collect();
+    let rec = Recording { policy, log: Default::default(), sessions: Default::default() };
+    let _guard = env.rt.enter();
+    let (events, result) = vx::run_scripted_request(&env.conn, &rec, idem, cl0, nplan, outcomes);
+    let log = rec.log.lock().unwrap();
+    let mut li = 0;
+    let mut out: Vec<String> = Vec::new();
+    for ev in &events {
+        match ev {
+            vx::Event::ConnFail(t) => out.push(format!("c{t:x}")),
+            vx::Event::Attempt(t, cl, true) => out.push(format!("a{t:x}/{}/ok", cl_name(*cl))),
+            vx::Event::Attempt(t, cl, false) => match log.get(li) {
+                Some((class, ri_idem, ri_cl, d)) => {
+                    li += 1;
+                    let bad = if *ri_idem != idem || ri_cl != cl { "!ri" } else { "" };
+                    out.push(format!("a{t:x}/{}/{class}/{}{bad}", cl_name(*cl), dec_str(d)));
+                }
+                None => out.push(format!("a{t:x}/{}/?/?", cl_name(*cl))),
+            },
+        }
+    }
+    if li != log.len() {
+        out.push(format!("!decisions={}", log.len()));
+    }
+    if *rec.sessions.lock().unwrap() > 1 {
+        out.push(format!("!sessions={}", rec.sessions.lock().unwrap()));
+    }
+    out.push("=>".into());
+    out.push(match result {
+        vx::FiberResult::Completed(t) => format!("completed:{t:x}"),
+        vx::FiberResult::IgnoredWriteError(t) => format!("ignored:{t:x}"),
+        vx::FiberResult::Pending => "pending".into(),
+        vx::FiberResult::Failed(RequestError::EmptyPlan) => "emptyplan".into(),
+        vx::FiberResult::Failed(RequestError::ConnectionPoolError(_)) => "failed:pool".into(),
+        vx::FiberResult::Failed(RequestError::LastAttemptError(e)) => format!("failed:{}", err_class(&e)),
+        vx::FiberResult::Failed(e) => format!("failed:?{e:?}").replace(' ', "_"),
+    });
+    out.join(" ")
+}
+
+fn run_any(env: &LoopEnv, case: &str) -> String {
+    if case.starts_with("F ") {
+        let (e, c) = (std::panic::AssertUnwindSafe(env), case.to_string());
+        match catch(move || run_fiber_case(&e, &c)) {
+            Ok(s) => s,
+            Err(m) => format!("panic:{}", m.replace(' ', "_")),
+        }
+    } else {
+        run_case(case)
+    }
+}
+
 /// One history on one session.
 fn run_case(case: &str) -> String {
     let case = case.to_string();
@@ -286,13 +454,47 @@ fn gen_history(r: &mut Rng, small: &[String], full: &[String]) -> String {
     format!("R {p} {}", steps.join(" "))
 }
 
+/// random outcome stream for the real loop: plan 0..5 targets, up to plan + 4 outcomes; half of
+/// the streams are biased towards errors that make the policy retry, so that long runs occur
+fn gen_fiber(r: &mut Rng, small: &[String], full: &[String]) -> String {
+    const RETRYING: [&str; 9] = ["Db.Unavailable:Quorum:3:2", "Db.Unavailable:EachQuorum:3:0", "Db.ReadTimeout:Quorum:2:2:0",
+        "Db.ReadTimeout:All:1:3:1", "Db.WriteTimeout:Quorum:1:2:BatchLog", "Db.WriteTimeout:Quorum:2:3:UnloggedBatch",
+        "Db.Overloaded", "Db.IsBootstrapping", "E.UnableToAllocStreamId"];
+    let np = if r.chance(1, 10) { 3 } else { 2 };
+    let p = *r.pick(&POLICIES[..np]);
+    let heavy = r.bool();
+    let nplan = if heavy { r.range(2, 5) } else { r.below(6) };
+    let len = if heavy { r.range(nplan, nplan + 4) } else { r.range(0, nplan + 4) };
+    let pser = if heavy { 12 } else { 6 };
+    let cl = if r.chance(1, pser) { *r.pick(&["Serial", "LocalSerial"]) } else { r.pick(&CLS).0 };
+    let idem = if heavy { (!r.chance(1, 4)) as u64 } else { r.below(2) };
+    let pkmax = if heavy { 1 } else { 3 };
+    let pk = r.range(0, pkmax); // probability of a success, in tenths
+    let pc = r.range(0, 3); // ... of a failed connection acquisition
+    let mut outs = Vec::new();
+    for _ in 0..len {
+        let x = r.below(10);
+        outs.push(if x < pk {
+            "K".to_string()
+        } else if x < pk + pc {
+            "C".to_string()
+        } else if heavy && !r.chance(1, 12) {
+            format!("X/{}", r.pick(&RETRYING))
+        } else {
+            format!("X/{}", gen_err(r, small, full))
+        });
+    }
+    format!("F {p} {idem} {cl} {nplan} {}", outs.join(" ")).trim_end().to_string()
+}
+
 fn main() {
     let a = parse_args();
     quiet_panics();
     let mut out = Out::create(&a.out);
+    let env = loop_env();
     if let Some(p) = &a.replay {
         for c in read_cases(p) {
-            let o = run_case(&c);
+            let o = run_any(&env, &c);
             out.case(&c, &o);
         }
         out.finish();
@@ -346,10 +548,44 @@ fn main() {
             }
         }
     }
+    // F: the real loop, exhaustively over short outcome streams ...
+    let alphabet: Vec<String> = ["C", "K", "X/Db.Unavailable:Quorum:2:1", "X/Db.ReadTimeout:Quorum:2:2:0",
+        "X/Db.WriteTimeout:Quorum:1:2:BatchLog", "X/Db.WriteTimeout:Quorum:1:2:Simple", "X/Db.Overloaded",
+        "X/Db.IsBootstrapping", "X/E.BrokenConnectionError:0", "X/Db.SyntaxError"]
+        .iter().map(|s| s.to_string()).collect();
+    let max_len = if thorough { 4 } else { 3 };
+    let mut seqs: Vec<Vec<&str>> = vec![vec![]];
+    let mut frontier: Vec<Vec<&str>> = vec![vec![]];
+    for _ in 0..max_len {
+        let mut next = Vec::new();
+        for s in &frontier {
+            for x in &alphabet {
+                let mut t = s.clone();
+                t.push(x.as_str());
+                next.push(t);
+            }
+        }
+        seqs.extend(next.iter().cloned());
+        frontier = next;
+    }
+    for p in POLICIES {
+        for idem in 0..2 {
+            for cn in ["One", "Quorum", "EachQuorum", "Serial"] {
+                for nplan in 0..=3 {
+                    for s in &seqs {
+                        let c = format!("F {p} {idem} {cn} {nplan} {}", s.join(" "));
+                        let o = run_any(&env, c.trim_end());
+                        out.case(c.trim_end(), &o);
+                    }
+                }
+            }
+        }
+    }
+    // ... and seeded random histories / outcome streams
     let mut r = Rng::new(a.seed);
     for _ in 0..a.n {
-        let c = gen_history(&mut r, &small, &full);
-        let o = run_case(&c);
+        let c = if r.chance(1, 3) { gen_fiber(&mut r, &small, &full) } else { gen_history(&mut r, &small, &full) };
+        let o = run_any(&env, &c);
         out.case(&c, &o);
     }
     out.finish();
